@@ -74,6 +74,23 @@ def run(chk):
             lines.append(r.run_line)
             impl.append(r.text)
             cases.append(case)
+        # a later registration changes the edges among the SAME components: the next evaluation must see it
+        cands = world.late_candidates(set(world.ids[k] for k in graph))
+        if cands and rng.random() < 0.6:
+            pnt, dsid = rng.choice(cands)
+            world.late_register(pnt, dsid)
+            graph2 = world.graph_for(targets)
+            lines.extend(world.lines(seeds))
+            for mode in ("run", "components"):
+                r = W.evaluate(world, seeds, ss, graph2, mode=mode)
+                case = {"spec": W.strip(spec), "seeds": seeds, "targets": targets, "order": r.order_ids, "store_skips": ss,
+                        "late": [pnt, dsid]}
+                oracle(chk, world, r, case)
+                lines.append(r.run_line)
+                impl.append(r.text)
+                cases.append(case)
+            chk.count("late-registration")
+            graph = graph2
         g = dict((k, set(v)) for k, v in graph.items())
         impl.append("/".join(",".join(str(i) for i in sorted(world.ids[c] for c in level)) for level in toposort(g)))
         lines.append(W.graph_line(world, graph))
